@@ -75,11 +75,13 @@ type After struct {
 }
 
 type Out struct {
-	Which string `json:"which"`
-	Dir   string `json:"dir"`
-	Found bool   `json:"found"`
-	Works bool   `json:"works"`
-	Peer  string `json:"peer"`
+	Which  string `json:"which"` // "claim" | "filetrans" (connections naming the session id)
+	Cmd    string `json:"cmd"`   // the command (connections by command)
+	Dir    string `json:"dir"`
+	Mapped bool   `json:"mapped"` // by command: the dialling end's command map has the command
+	Found  bool   `json:"found"`
+	Works  bool   `json:"works"`
+	Peer   string `json:"peer"`
 }
 
 type Step struct {
@@ -112,9 +114,21 @@ type Variant struct {
 
 // Diff is a conformance difference.
 type Diff struct {
-	Step   string
+	Step   string // for by-command connections "ConnectCmd:<dialling end>:<command class>"
 	Field  string
 	Detail string
+}
+
+func cmdClass(atom string) string {
+	switch atom {
+	case "c0":
+		return "zero"
+	case "c1":
+		return "one"
+	case "c2147483647":
+		return "max-int32"
+	}
+	return "ordinary"
 }
 
 func (d *Diff) Error() string { return fmt.Sprintf("%s: %s: %s", d.Step, d.Field, d.Detail) }
@@ -138,9 +152,15 @@ var atoms = map[string]string{
 	"host&noUDP": "host.example.org&noUDP", "ip4:port?sock": "127.0.0.1:9618?sock", ":port?noUDP": ":9618?noUDP",
 	"ip4-port+": "127.0.0.1-9618+", "-port&noUDP": "-9618&noUDP", "bday": strconv.Itoa(bday),
 	"c442": "442", "c443": "443", "c444": "444", "c60010": "60010",
+	"c0": "0", "c1": "1", "c2147483647": "2147483647",
 }
 
-var cmdInts = map[string]int{"c442": 442, "c443": 443, "c444": 444, "c60010": 60010}
+var cmdInts = map[string]int{"c442": 442, "c443": 443, "c444": 444, "c60010": 60010,
+	"c0": 0, "c1": 1, "c2147483647": 2147483647}
+
+// the importer's own address: the minter files the session in its command map
+// under this peer (MintClaimOptions.PeerAddr) for its outbound dials
+const importerSinful = "<10.2.0.1:9618>"
 
 // render turns the model's token text into the concrete string.
 func render(tokens []string, secret, expires string, seq int) string {
@@ -247,8 +267,10 @@ type connObs struct {
 	repLegible    bool
 }
 
-// connect runs a real client / server handshake naming the session explicitly.
-func connect(cliCache, srvCache *security.SessionCache, sid, sinful string, st *Stats) connObs {
+// connect runs a real client / server handshake. With sid != "" the client
+// names the session explicitly (SecurityConfig.SessionID); with sid == "" it
+// names only the command and the peer, and the client's command map decides.
+func connect(cliCache, srvCache *security.SessionCache, sid, sinful string, cmd int, st *Stats) connObs {
 	var o connObs
 	st.Handshakes++
 	ctx, cancel := context.WithTimeout(context.Background(), 30*time.Second)
@@ -267,7 +289,7 @@ func connect(cliCache, srvCache *security.SessionCache, sid, sinful string, st *
 		err                  error
 	}
 	hch := make(chan hres, 1)
-	srv.Handle(claimCmd, func(ctx context.Context, c *server.Conn) error {
+	srv.Handle(cmd, func(ctx context.Context, c *server.Conn) error {
 		r := hres{resumed: c.Negotiation.SessionResumed, enc: c.Stream.IsEncrypted(), user: c.Negotiation.User,
 			method: string(c.Negotiation.NegotiatedAuth), authed: c.Negotiation.Authentication}
 		r.req, r.err = message.NewMessageFromStream(c.Stream).GetString(ctx)
@@ -285,7 +307,7 @@ func connect(cliCache, srvCache *security.SessionCache, sid, sinful string, st *
 	go func() { done <- srv.ServeConn(ctx, sconn) }()
 	cs := stream.NewStream(cli)
 	cs.SetPeerAddr(sinful)
-	auth := security.NewAuthenticator(&security.SecurityConfig{Command: claimCmd, PeerName: sinful,
+	auth := security.NewAuthenticator(&security.SecurityConfig{Command: cmd, PeerName: sinful,
 		SessionCache: cliCache, SessionID: sid}, cs)
 	_ = cli.SetReadDeadline(time.Now().Add(20 * time.Second))
 	neg, err := auth.ClientHandshake(ctx)
@@ -342,7 +364,7 @@ func wantAttr(v string, present bool) string {
 
 // Run executes one behaviour; nil = the real code conforms.
 func Run(sc *Scenario, v Variant, st *Stats) *Diff {
-	if len(sc.Trace) != 6 || sc.Trace[0].A != "Init" || sc.Trace[0].Cfg == nil {
+	if len(sc.Trace) < 6 || sc.Trace[0].A != "Init" || sc.Trace[0].Cfg == nil {
 		return &Diff{"Init", "shape", "unexpected behaviour shape"}
 	}
 	cfg, rel := sc.Trace[0].Cfg, sc.Trace[0].Rel
@@ -352,7 +374,7 @@ func Run(sc *Scenario, v Variant, st *Stats) *Diff {
 
 	// ---- Mint --------------------------------------------------------------
 	sinful := render(mint.Sid[:indexOf(mint.Sid, ">")+1], "", "", seq)
-	opts := security.MintClaimOptions{Sinful: sinful, Birthdate: bday, SequenceNum: seq,
+	opts := security.MintClaimOptions{Sinful: sinful, Birthdate: bday, SequenceNum: seq, PeerAddr: importerSinful,
 		Encryption: &cfg.Enc, Integrity: &cfg.Integ, CryptoMethods: strings.Join(cfg.Ciphers, ","),
 		Lifetime: time.Duration(cfg.Life) * time.Second}
 	switch cfg.Ver {
@@ -550,16 +572,18 @@ func Run(sc *Scenario, v Variant, st *Stats) *Diff {
 		}
 	}
 
-	// ---- Connect(claim), Connect(filetrans) ---------------------------------
-	for k := 4; k <= 5; k++ {
+	// ---- Connect(claim), Connect(filetrans), ConnectByCommand(cmd, dir)... ----
+	for k := 4; k < len(sc.Trace); k++ {
 		exp := sc.Trace[k].Out
 		if exp == nil {
 			return &Diff{"Connect", "shape", "missing expectation"}
 		}
+		byCmd := sc.Trace[k].A == "ConnectCmd"
 		sid := wantSid
 		if exp.Which == "filetrans" {
 			sid = wantFT
 		}
+		cmd, peer := claimCmd, sinful
 		cli, srv := cacheB, cacheA
 		wantUser := security.SubmitSideMatchSessionFQU // what the minter attributes to its peer
 		if exp.Dir == "minterDials" {
@@ -567,13 +591,20 @@ func Run(sc *Scenario, v Variant, st *Stats) *Diff {
 			wantUser = security.ExecuteSideMatchSessionFQU
 		}
 		name := "Connect-" + exp.Which
+		if byCmd {
+			// only the command and the peer's address are named: the command map decides
+			name, sid, cmd = "ConnectCmd:"+exp.Dir+":"+cmdClass(exp.Cmd), "", cmdInts[exp.Cmd]
+			if exp.Dir == "minterDials" {
+				peer = importerSinful
+			}
+		}
 		ids := [4]string{wantSid, wantSid, wantFT, wantFT}
 		caches := [4]*security.SessionCache{cacheA, cacheB, cacheA, cacheB}
 		var before [4]snapshot
 		for i := range before {
 			before[i] = snap(caches[i], ids[i])
 		}
-		o := connect(cli, srv, sid, sinful, st)
+		o := connect(cli, srv, sid, peer, cmd, st)
 		// SameSession in every state: using the session must leave it one session
 		if aft := sc.Trace[k].After; strict && aft != nil {
 			var after [4]snapshot
@@ -612,6 +643,16 @@ func Run(sc *Scenario, v Variant, st *Stats) *Diff {
 			}
 		}
 		works := o.cliErr == nil && o.handlerRan && o.reqIntact && o.repIntact
+		if byCmd {
+			// a dial by command "works" when it rides the claim session; data that
+			// flowed over a freshly negotiated session is the clause's failure
+			resumed := o.cliResumed && o.wasResumed && o.srvResumed && !o.fullHandshake
+			if works && !resumed && exp.Works {
+				return &Diff{name, "resumed", fmt.Sprintf("a dial for listed command %s (specification: filed in the dialling end's command map = %v) did not resume the claim session but negotiated afresh: client resumed %v/%v, server resumed %v, full-handshake traffic %v, server sees user %q method %q",
+					atoms[exp.Cmd], exp.Mapped, o.cliResumed, o.wasResumed, o.srvResumed, o.fullHandshake, o.srvUser, o.srvMethod)}
+			}
+			works = works && resumed
+		}
 		if works != exp.Works {
 			return &Diff{name, "works", fmt.Sprintf("application data flowed = %v (client error %v, handler ran %v, request intact %v, reply intact %v), specification: %v",
 				works, o.cliErr, o.handlerRan, o.reqIntact, o.repIntact, exp.Works)}
@@ -759,6 +800,9 @@ func Signature(sc *Scenario, v Variant, d *Diff) map[string]string {
 	}
 	if strings.HasPrefix(d.Step, "Connect") {
 		sig["dir"] = cfg.Dir
+	}
+	if p := strings.Split(d.Step, ":"); len(p) == 3 && p[0] == "ConnectCmd" {
+		sig["action"], sig["dir"], sig["command"] = p[0], p[1], p[2]
 	}
 	// minting, leases and what a connection does to the entries do not depend on what the importer holds
 	if d.Step != "Mint" && d.Field != "lease" && !strings.HasPrefix(d.Field, "after-") {
